@@ -288,8 +288,9 @@ impl Run {
             "violations": g.violations.len(),
         });
         if self.replay.is_none() {
-            let _ = std::fs::create_dir_all(format!("{}/evidence", VERIF_ROOT));
-            let path = format!("{}/evidence/{}.json", VERIF_ROOT, self.id);
+            let dir = std::env::var("VERIF_EVIDENCE_DIR").unwrap_or(format!("{}/evidence", VERIF_ROOT));
+            let _ = std::fs::create_dir_all(&dir);
+            let path = format!("{}/{}.json", dir, self.id);
             std::fs::write(&path, serde_json::to_string_pretty(&ev).unwrap())
                 .expect("cannot write evidence");
         }
